@@ -180,13 +180,13 @@ def getManyLoop (cfg : Cfg) (env : Env) (any : Bool) :
 /-- The duplicate check of `RawTable::get_many_mut` (raw/mod.rs:1246): `ptrs[..i].contains(cur)` on
     `Option<NonNull<T>>` obtained from `Bucket::as_non_null()`. For `size_of::<T>() ≠ 0` two
     pointers are equal iff the buckets are; for a zero-sized `T` `Bucket::as_ptr` returns the same
-    dangling pointer for every bucket, so any two found requests compare equal (defect F2 of 0.15.2,
-    modelled as it is). -/
+    dangling pointer for every bucket, so any two found requests compared equal in 0.15.2 (defect F2,
+    `cfg.zstDupFixed = false`); the repaired code compares buckets (`cfg.zstDupFixed = true`). -/
 def hasDup (cfg : Cfg) : List (Option Nat) → Bool
   | [] => false
   | none :: rest => hasDup cfg rest
   | some i :: rest =>
-    rest.any (fun o => match o with | some j => cfg.size == 0 || i == j | none => false) || hasDup cfg rest
+    rest.any (fun o => match o with | some j => (cfg.size == 0 && !cfg.zstDupFixed) || i == j | none => false) || hasDup cfg rest
 
 /-- `get_many_mut(hashes, eq)` (table.rs:1041), then `v += 1000 * (i + 1)` through every returned
     reference. Result: the elements as returned (before the writes). -/
